@@ -82,6 +82,21 @@ def problems(poly):
     return out
 
 
+def neutral(func):
+    """Run a monitor function under its own warning / floating-point settings: it may be called
+    while the workload has warnings or floating-point faults promoted to errors."""
+    import functools
+    import warnings
+
+    @functools.wraps(func)
+    def wrapper(*args, **kwargs):
+        with warnings.catch_warnings(), numpy.errstate(all="ignore"):
+            warnings.simplefilter("ignore")
+            return func(*args, **kwargs)
+    return wrapper
+
+
+@neutral
 def rebuild_problems(poly):
     """Rebuild through the three routes; returns a list of problems."""
     import numpoly
@@ -150,3 +165,6 @@ def polys_in(value, depth=0):
     elif isinstance(value, dict) and depth < 4:
         for item in value.values():
             yield from polys_in(item, depth + 1)
+
+
+problems = neutral(problems)
